@@ -10,5 +10,9 @@ OBLIGATIONS = [
      "remove": {"cms.c": ["cms_recipient_info_from_der"]}, "unwind": 8, "timeout": 600,
      "title": "cms_recipient_info_decrypt_from_der decrypts only the RecipientInfo whose issuer and serial number equal the offered ones exactly",
      "bounds": "issuers and serials of 1..3 bytes, all contents", "stubs": ["cms_recipient_info_from_der: abstract fields", "sm2_decrypt: recorder"]},
+    {"id": "C16.signed_data_sign", "harness": "harness/C16/cms.c", "entry": "h_sign_side", "units": ["cms.c", "asn1.c"], "defs": ["-DSIGNSIDE"],
+     "remove": {"cms.c": ["cms_signer_infos_add_signer_info", "cms_implicit_signers_certs_to_der", "cms_digest_algors_to_der"]}, "unwind": 70, "timeout": 900,
+     "title": "cms_signed_data_sign_to_der hashes exactly the DER of the ContentInfo it emits (every content type) and makes SignerInfo i with signer i's key and certificate",
+     "bounds": "content of 5 bytes (all contents), 6 content types, 2 signers", "stubs": ["sm3_*: byte recorder", "cms_signer_infos_add_signer_info: call recorder", "x509_cert_get_issuer_and_serial_number, certificate / digest-algorithm encoders: abstract"]},
 ]
 NOTE = "C16: CMS."
